@@ -15,10 +15,12 @@
       one [match] on [st_fs s !! comps p] plus the special cases by name;
     - C.15 [fs_mkdirall] on direct paths.
 
-    Side condition on the walk budget: [walk_fuel = 4096]; the lemmas about
-    [resolve] and the primitives carry the explicit hypothesis
-    [length (comps p) + 2 < walk_fuel] ([walk_budget_by_length] derives it
-    from [length p + 2 < walk_fuel]). *)
+    The walk budget: [resolve f p] runs [walk] with the budget
+    [walk_fuel + length p] ([walk_fuel = 4096]).  A walk that follows no
+    symlink consumes one unit per element of [split_sep p] plus one, and
+    [length (split_sep p) <= S (length p)] ([split_sep_length_le]): the
+    lemmas about [resolve] and the primitives on [direct] / [nolinkpar]
+    paths carry no budget hypothesis. *)
 From stdpp Require Import gmap.
 From BFS Require Import Fs.FsSpec Proofs.PathFacts.
 Local Open Scope nat_scope.
@@ -581,17 +583,38 @@ Proof.
       simpl forallb. rewrite Ht2. exists ENOENT. split; reflexivity.
 Qed.
 
+(** the budget of [resolve] covers every element of the split name *)
+Lemma split_sep_nonempty : forall p, split_sep p <> [].
+Proof.
+  induction p as [|c r IH]; simpl.
+  - discriminate.
+  - destruct (N.eqb c sep); [discriminate|].
+    destruct (split_sep r); discriminate.
+Qed.
+
+Lemma split_sep_length_le : forall p, length (split_sep p) <= S (length p).
+Proof.
+  induction p as [|c r IH]; simpl.
+  - lia.
+  - destruct (N.eqb c sep); [simpl; lia|].
+    destruct (split_sep r) as [|h t] eqn:E; simpl in *; lia.
+Qed.
+
 (** [resolve] on an absolute cleaned path is the walk over its components *)
 Lemma resolve_abs_cleaned : forall f p follow,
-  abs_cleaned p -> length (comps p) + 2 < walk_fuel ->
+  abs_cleaned p ->
   exists fuel, length (comps p) < fuel /\
     resolve f p follow = walk fuel f 0 [] (comps p) follow.
 Proof.
-  intros f p follow Hac Hlen.
+  intros f p follow Hac.
   pose proof (abs_cleaned_nonempty p Hac) as Hne.
   pose proof (abs_cleaned_split_gen p Hac) as Hs.
+  pose proof (comps_length_le p Hac) as Hle.
   unfold resolve. destruct p as [|x p']; [contradiction Hne; reflexivity|].
-  rewrite Hs. clear Hs. revert Hlen. generalize walk_fuel. intros F Hlen.
+  rewrite Hs. clear Hs.
+  assert (Hlen : length (comps (x :: p')) + 2 < walk_fuel + length (x :: p')).
+  { rewrite walk_fuel_eq. lia. }
+  revert Hlen. generalize (walk_fuel + length (x :: p')). intros F Hlen.
   destruct F as [|F]; [lia|].
   rewrite walk_trivial by reflexivity.
   destruct (comps (x :: p')) as [|c r] eqn:E.
@@ -603,7 +626,7 @@ Qed.
 
 (** the walk of a direct path, all cases *)
 Lemma resolve_direct : forall f p follow,
-  direct f p -> length (comps p) + 2 < walk_fuel ->
+  direct f p ->
   (follow = false \/ not_link_at f (comps p)) ->
   resolve f p follow =
     match f !! comps p with
@@ -615,8 +638,8 @@ Lemma resolve_direct : forall f p follow,
         end
     end.
 Proof.
-  intros f p follow [Hac Hd] Hlen Hside.
-  destruct (resolve_abs_cleaned f p follow Hac Hlen) as [fuel [Hfuel E]].
+  intros f p follow [Hac Hd] Hside.
+  destruct (resolve_abs_cleaned f p follow Hac) as [fuel [Hfuel E]].
   rewrite E. clear E.
   pose proof (abs_comps_plain p (proj2 Hac)) as Hpl.
   destruct (f !! comps p) as [n|] eqn:El.
@@ -631,54 +654,54 @@ Proof.
 Qed.
 
 Lemma resolve_direct_found : forall f p follow n,
-  direct f p -> length (comps p) + 2 < walk_fuel ->
+  direct f p ->
   f !! comps p = Some n -> (forall m t, n <> Link m t) ->
   resolve f p follow = WFound (comps p) n.
 Proof.
-  intros f p follow n Hd Hlen Hn Hnl.
-  rewrite resolve_direct; [rewrite Hn; reflexivity | exact Hd | exact Hlen |].
+  intros f p follow n Hd Hn Hnl.
+  rewrite resolve_direct; [rewrite Hn; reflexivity | exact Hd |].
   right. intros m t E. norm_keys. rewrite Hn in E. injection E as E. exact (Hnl m t E).
 Qed.
 
 Lemma resolve_direct_found_nofollow : forall f p n,
-  direct f p -> length (comps p) + 2 < walk_fuel ->
+  direct f p ->
   f !! comps p = Some n ->
   resolve f p false = WFound (comps p) n.
 Proof.
-  intros f p n Hd Hlen Hn.
-  rewrite resolve_direct; [rewrite Hn; reflexivity | exact Hd | exact Hlen |].
+  intros f p n Hd Hn.
+  rewrite resolve_direct; [rewrite Hn; reflexivity | exact Hd |].
   left. reflexivity.
 Qed.
 
 Lemma resolve_direct_missing : forall f p follow,
-  direct f p -> length (comps p) + 2 < walk_fuel ->
+  direct f p ->
   comps p <> [] -> f !! comps p = None ->
   resolve f p follow = WMissing (removelast (comps p)) (last (comps p) []) false.
 Proof.
-  intros f p follow Hd Hlen Hne Hn.
-  rewrite resolve_direct; [| exact Hd | exact Hlen |].
+  intros f p follow Hd Hne Hn.
+  rewrite resolve_direct; [| exact Hd |].
   - rewrite Hn. destruct (comps p); [contradiction Hne; reflexivity | reflexivity].
   - right. intros m t E. norm_keys. rewrite Hn in E. discriminate E.
 Qed.
 
 Lemma resolve_direct_root_missing : forall f p follow,
-  direct f p -> length (comps p) + 2 < walk_fuel ->
+  direct f p ->
   comps p = [] -> f !! comps p = None ->
   resolve f p follow = WErr ENOENT.
 Proof.
-  intros f p follow Hd Hlen Hk Hn.
-  rewrite resolve_direct; [| exact Hd | exact Hlen |].
+  intros f p follow Hd Hk Hn.
+  rewrite resolve_direct; [| exact Hd |].
   - rewrite Hn. rewrite Hk. reflexivity.
   - right. intros m t E. norm_keys. rewrite Hn in E. discriminate E.
 Qed.
 
 Lemma resolve_nolinkpar_notfound' : forall f p follow,
-  is_dir_at f [] -> length (comps p) + 2 < walk_fuel ->
+  is_dir_at f [] ->
   nolinkpar f p -> ~ direct f p ->
   exists e, resolve f p follow = WErr e /\ is_not_found e = true.
 Proof.
-  intros f p follow Hroot Hlen [Hac Hnl] Hnd.
-  destruct (resolve_abs_cleaned f p follow Hac Hlen) as [fuel [Hfuel E]].
+  intros f p follow Hroot [Hac Hnl] Hnd.
+  destruct (resolve_abs_cleaned f p follow Hac) as [fuel [Hfuel E]].
   rewrite E. clear E.
   apply walk_nolink_notfound; try assumption.
   - apply abs_comps_plain. exact (proj2 Hac).
@@ -686,7 +709,7 @@ Proof.
 Qed.
 
 Lemma resolve_nolinkpar_notfound : forall f p follow,
-  wf f -> length (comps p) + 2 < walk_fuel ->
+  wf f ->
   nolinkpar f p -> ~ direct f p ->
   exists e, resolve f p follow = WErr e /\ is_not_found e = true.
 Proof.
@@ -936,21 +959,21 @@ Qed.
 (** ** C.8 [fs_lstat], [fs_stat] *)
 
 Lemma fs_lstat_direct : forall s p,
-  direct (st_fs s) p -> length (comps p) + 2 < walk_fuel ->
+  direct (st_fs s) p ->
   fs_lstat s p =
     match st_fs s !! comps p with
     | Some n => Ok (info_of (base p) n)
     | None => Err ENOENT
     end.
 Proof.
-  intros s p Hd Hlen. unfold fs_lstat.
-  rewrite (resolve_direct _ p false Hd Hlen (or_introl eq_refl)).
+  intros s p Hd. unfold fs_lstat.
+  rewrite (resolve_direct _ p false Hd (or_introl eq_refl)).
   destruct (st_fs s !! comps p); [reflexivity|].
   destruct (comps p); reflexivity.
 Qed.
 
 Lemma fs_stat_direct : forall s p,
-  direct (st_fs s) p -> length (comps p) + 2 < walk_fuel ->
+  direct (st_fs s) p ->
   not_link_at (st_fs s) (comps p) ->
   fs_stat s p =
     match st_fs s !! comps p with
@@ -958,8 +981,8 @@ Lemma fs_stat_direct : forall s p,
     | None => Err ENOENT
     end.
 Proof.
-  intros s p Hd Hlen Hnl. unfold fs_stat.
-  rewrite (resolve_direct _ p true Hd Hlen (or_intror Hnl)).
+  intros s p Hd Hnl. unfold fs_stat.
+  rewrite (resolve_direct _ p true Hd (or_intror Hnl)).
   destruct (st_fs s !! comps p); [reflexivity|].
   destruct (comps p); reflexivity.
 Qed.
@@ -969,46 +992,46 @@ Lemma fs_lstat_nolinkpar_present : forall (f : fs) p n,
 Proof. intros f p n Hwf [Hac _] Hn. exact (wf_present_direct f p n Hwf Hac Hn). Qed.
 
 Lemma fs_lstat_nolinkpar_notfound : forall s p,
-  wf (st_fs s) -> length (comps p) + 2 < walk_fuel ->
+  wf (st_fs s) ->
   nolinkpar (st_fs s) p -> ~ direct (st_fs s) p ->
   exists e, fs_lstat s p = Err e /\ is_not_found e = true.
 Proof.
-  intros s p Hwf Hlen Hnl Hnd. unfold fs_lstat.
-  destruct (resolve_nolinkpar_notfound (st_fs s) p false Hwf Hlen Hnl Hnd) as [e [E He]].
+  intros s p Hwf Hnl Hnd. unfold fs_lstat.
+  destruct (resolve_nolinkpar_notfound (st_fs s) p false Hwf Hnl Hnd) as [e [E He]].
   rewrite E. exists e. split; [reflexivity | exact He].
 Qed.
 
 (** [Lstat] below link-free parents: the entry at the key, or a not-found error *)
 Lemma fs_lstat_nolinkpar : forall s p,
-  wf (st_fs s) -> length (comps p) + 2 < walk_fuel -> nolinkpar (st_fs s) p ->
+  wf (st_fs s) -> nolinkpar (st_fs s) p ->
   match st_fs s !! comps p with
   | Some n => fs_lstat s p = Ok (info_of (base p) n)
   | None => exists e, fs_lstat s p = Err e /\ is_not_found e = true
   end.
 Proof.
-  intros s p Hwf Hlen Hnl.
+  intros s p Hwf Hnl.
   destruct (st_fs s !! comps p) as [n|] eqn:El.
   - pose proof (fs_lstat_nolinkpar_present _ p n Hwf Hnl El) as Hd.
-    rewrite (fs_lstat_direct s p Hd Hlen). norm_keys. rewrite El. reflexivity.
+    rewrite (fs_lstat_direct s p Hd). norm_keys. rewrite El. reflexivity.
   - destruct (direct_decidable (st_fs s) p (proj1 Hnl)) as [Hd|Hnd].
     + exists ENOENT. split; [|reflexivity].
-      rewrite (fs_lstat_direct s p Hd Hlen). norm_keys. rewrite El. reflexivity.
+      rewrite (fs_lstat_direct s p Hd). norm_keys. rewrite El. reflexivity.
     + apply fs_lstat_nolinkpar_notfound; assumption.
 Qed.
 
 (** ** C.9 [fs_readlink] *)
 
 Lemma fs_readlink_direct : forall s p m t,
-  direct (st_fs s) p -> length (comps p) + 2 < walk_fuel ->
+  direct (st_fs s) p ->
   st_fs s !! comps p = Some (Link m t) ->
   fs_readlink s p = Ok t.
 Proof.
-  intros s p m t Hd Hlen Hn. unfold fs_readlink.
-  rewrite (resolve_direct_found_nofollow _ p _ Hd Hlen Hn). reflexivity.
+  intros s p m t Hd Hn. unfold fs_readlink.
+  rewrite (resolve_direct_found_nofollow _ p _ Hd Hn). reflexivity.
 Qed.
 
 Lemma fs_readlink_direct_gen : forall s p,
-  direct (st_fs s) p -> length (comps p) + 2 < walk_fuel ->
+  direct (st_fs s) p ->
   fs_readlink s p =
     match st_fs s !! comps p with
     | Some (Link _ t) => Ok t
@@ -1016,8 +1039,8 @@ Lemma fs_readlink_direct_gen : forall s p,
     | None => Err ENOENT
     end.
 Proof.
-  intros s p Hd Hlen. unfold fs_readlink.
-  rewrite (resolve_direct _ p false Hd Hlen (or_introl eq_refl)).
+  intros s p Hd. unfold fs_readlink.
+  rewrite (resolve_direct _ p false Hd (or_introl eq_refl)).
   destruct (st_fs s !! comps p) as [[m|m d|m t]|]; try reflexivity.
   destruct (comps p); reflexivity.
 Qed.
@@ -1025,7 +1048,7 @@ Qed.
 (** ** C.10 [fs_mkdir] *)
 
 Lemma fs_mkdir_direct : forall s p perm,
-  direct (st_fs s) p -> length (comps p) + 2 < walk_fuel ->
+  direct (st_fs s) p ->
   fs_mkdir s p perm =
     match st_fs s !! comps p with
     | Some _ => (Err EEXIST, s)
@@ -1042,15 +1065,15 @@ Lemma fs_mkdir_direct : forall s p perm,
         end
     end.
 Proof.
-  intros s p perm Hd Hlen. unfold fs_mkdir.
+  intros s p perm Hd. unfold fs_mkdir.
   rewrite (strip_or_self_abs_cleaned p (proj1 Hd)).
-  rewrite (resolve_direct _ p false Hd Hlen (or_introl eq_refl)).
+  rewrite (resolve_direct _ p false Hd (or_introl eq_refl)).
   destruct (st_fs s !! comps p); [reflexivity|].
   destruct (comps p); reflexivity.
 Qed.
 
 Lemma fs_mkdir_direct_missing : forall s p perm,
-  direct (st_fs s) p -> length (comps p) + 2 < walk_fuel ->
+  direct (st_fs s) p ->
   comps p <> [] -> st_fs s !! comps p = None ->
   fs_mkdir s p perm =
     (Ok tt,
@@ -1060,23 +1083,23 @@ Lemma fs_mkdir_direct_missing : forall s p perm,
                          (if parent_sgid (st_fs s) (removelast (comps p))
                           then sgid_bit else 0%N)) 0%N g t))).
 Proof.
-  intros s p perm Hd Hlen Hne Hn. rewrite (fs_mkdir_direct s p perm Hd Hlen).
+  intros s p perm Hd Hne Hn. rewrite (fs_mkdir_direct s p perm Hd).
   rewrite Hn. destruct (comps p); [contradiction Hne; reflexivity | reflexivity].
 Qed.
 
 Lemma fs_mkdir_direct_exists : forall s p perm n,
-  direct (st_fs s) p -> length (comps p) + 2 < walk_fuel ->
+  direct (st_fs s) p ->
   st_fs s !! comps p = Some n ->
   fs_mkdir s p perm = (Err EEXIST, s).
 Proof.
-  intros s p perm n Hd Hlen Hn. rewrite (fs_mkdir_direct s p perm Hd Hlen).
+  intros s p perm n Hd Hn. rewrite (fs_mkdir_direct s p perm Hd).
   rewrite Hn. reflexivity.
 Qed.
 
 (** ** C.11 [fs_symlink], [fs_chmod], [fs_chown], [fs_lchown], [fs_chtimes] *)
 
 Lemma fs_symlink_direct : forall s target p,
-  direct (st_fs s) p -> length (comps p) + 2 < walk_fuel -> target <> [] ->
+  direct (st_fs s) p -> target <> [] ->
   fs_symlink s target p =
     match st_fs s !! comps p with
     | Some _ => (Err EEXIST, s)
@@ -1090,38 +1113,38 @@ Lemma fs_symlink_direct : forall s target p,
         end
     end.
 Proof.
-  intros s target p Hd Hlen Ht. unfold fs_symlink.
+  intros s target p Hd Ht. unfold fs_symlink.
   destruct target as [|x target']; [contradiction Ht; reflexivity|].
   rewrite (strip_or_self_abs_cleaned p (proj1 Hd)).
-  rewrite (resolve_direct _ p false Hd Hlen (or_introl eq_refl)).
+  rewrite (resolve_direct _ p false Hd (or_introl eq_refl)).
   rewrite str_eqb_refl.
   destruct (st_fs s !! comps p); [reflexivity|].
   destruct (comps p); reflexivity.
 Qed.
 
 Lemma fs_symlink_direct_missing : forall s target p,
-  direct (st_fs s) p -> length (comps p) + 2 < walk_fuel -> target <> [] ->
+  direct (st_fs s) p -> target <> [] ->
   comps p <> [] -> st_fs s !! comps p = None ->
   fs_symlink s target p =
     (Ok tt,
      add_entry s (removelast (comps p)) (last (comps p) [])
        (fun t g => Link (mkMeta 511%N 0%N g t) target)).
 Proof.
-  intros s target p Hd Hlen Ht Hne Hn. rewrite (fs_symlink_direct s target p Hd Hlen Ht).
+  intros s target p Hd Ht Hne Hn. rewrite (fs_symlink_direct s target p Hd Ht).
   rewrite Hn. destruct (comps p); [contradiction Hne; reflexivity | reflexivity].
 Qed.
 
 Lemma fs_symlink_direct_exists : forall s target p n,
-  direct (st_fs s) p -> length (comps p) + 2 < walk_fuel -> target <> [] ->
+  direct (st_fs s) p -> target <> [] ->
   st_fs s !! comps p = Some n ->
   fs_symlink s target p = (Err EEXIST, s).
 Proof.
-  intros s target p n Hd Hlen Ht Hn. rewrite (fs_symlink_direct s target p Hd Hlen Ht).
+  intros s target p n Hd Ht Hn. rewrite (fs_symlink_direct s target p Hd Ht).
   rewrite Hn. reflexivity.
 Qed.
 
 Lemma fs_chmod_direct : forall s p mode,
-  direct (st_fs s) p -> length (comps p) + 2 < walk_fuel ->
+  direct (st_fs s) p ->
   not_link_at (st_fs s) (comps p) ->
   fs_chmod s p mode =
     match st_fs s !! comps p with
@@ -1133,14 +1156,14 @@ Lemma fs_chmod_direct : forall s p mode,
     | None => (Err ENOENT, s)
     end.
 Proof.
-  intros s p mode Hd Hlen Hnl. unfold fs_chmod.
-  rewrite (resolve_direct _ p true Hd Hlen (or_intror Hnl)).
+  intros s p mode Hd Hnl. unfold fs_chmod.
+  rewrite (resolve_direct _ p true Hd (or_intror Hnl)).
   destruct (st_fs s !! comps p); [reflexivity|].
   destruct (comps p); reflexivity.
 Qed.
 
 Lemma fs_chown_direct : forall s p uid gid,
-  direct (st_fs s) p -> length (comps p) + 2 < walk_fuel ->
+  direct (st_fs s) p ->
   not_link_at (st_fs s) (comps p) ->
   fs_chown s p uid gid =
     match st_fs s !! comps p with
@@ -1148,28 +1171,28 @@ Lemma fs_chown_direct : forall s p uid gid,
     | None => (Err ENOENT, s)
     end.
 Proof.
-  intros s p uid gid Hd Hlen Hnl. unfold fs_chown, fs_chown_gen.
-  rewrite (resolve_direct _ p true Hd Hlen (or_intror Hnl)).
+  intros s p uid gid Hd Hnl. unfold fs_chown, fs_chown_gen.
+  rewrite (resolve_direct _ p true Hd (or_intror Hnl)).
   destruct (st_fs s !! comps p); [reflexivity|].
   destruct (comps p); reflexivity.
 Qed.
 
 Lemma fs_lchown_direct : forall s p uid gid,
-  direct (st_fs s) p -> length (comps p) + 2 < walk_fuel ->
+  direct (st_fs s) p ->
   fs_lchown s p uid gid =
     match st_fs s !! comps p with
     | Some n => (Ok tt, update_node s (comps p) (chown_node n uid gid))
     | None => (Err ENOENT, s)
     end.
 Proof.
-  intros s p uid gid Hd Hlen. unfold fs_lchown, fs_chown_gen.
-  rewrite (resolve_direct _ p false Hd Hlen (or_introl eq_refl)).
+  intros s p uid gid Hd. unfold fs_lchown, fs_chown_gen.
+  rewrite (resolve_direct _ p false Hd (or_introl eq_refl)).
   destruct (st_fs s !! comps p); [reflexivity|].
   destruct (comps p); reflexivity.
 Qed.
 
 Lemma fs_chtimes_direct : forall s p t,
-  direct (st_fs s) p -> length (comps p) + 2 < walk_fuel ->
+  direct (st_fs s) p ->
   not_link_at (st_fs s) (comps p) ->
   fs_chtimes s p t =
     match st_fs s !! comps p with
@@ -1181,8 +1204,8 @@ Lemma fs_chtimes_direct : forall s p t,
     | None => (Err ENOENT, s)
     end.
 Proof.
-  intros s p t Hd Hlen Hnl. unfold fs_chtimes.
-  rewrite (resolve_direct _ p true Hd Hlen (or_intror Hnl)).
+  intros s p t Hd Hnl. unfold fs_chtimes.
+  rewrite (resolve_direct _ p true Hd (or_intror Hnl)).
   destruct (st_fs s !! comps p); [reflexivity|].
   destruct (comps p); reflexivity.
 Qed.
@@ -1198,7 +1221,7 @@ Proof.
 Qed.
 
 Lemma fs_unlink_direct : forall s p,
-  direct (st_fs s) p -> length (comps p) + 2 < walk_fuel ->
+  direct (st_fs s) p ->
   fs_unlink s p =
     match st_fs s !! comps p with
     | Some (Dir _) => (Err EISDIR, s)
@@ -1206,15 +1229,15 @@ Lemma fs_unlink_direct : forall s p,
     | None => (Err ENOENT, s)
     end.
 Proof.
-  intros s p Hd Hlen. unfold fs_unlink.
+  intros s p Hd. unfold fs_unlink.
   rewrite (slashed_link_abs_cleaned s p (proj1 Hd)).
-  rewrite (resolve_direct _ p false Hd Hlen (or_introl eq_refl)).
+  rewrite (resolve_direct _ p false Hd (or_introl eq_refl)).
   destruct (st_fs s !! comps p) as [[m|m d|m t]|]; try reflexivity.
   destruct (comps p); reflexivity.
 Qed.
 
 Lemma fs_rmdir_direct : forall s p,
-  direct (st_fs s) p -> length (comps p) + 2 < walk_fuel ->
+  direct (st_fs s) p ->
   fs_rmdir s p =
     match st_fs s !! comps p with
     | Some (Dir _) =>
@@ -1227,15 +1250,15 @@ Lemma fs_rmdir_direct : forall s p,
     | None => (Err ENOENT, s)
     end.
 Proof.
-  intros s p Hd Hlen. unfold fs_rmdir.
+  intros s p Hd. unfold fs_rmdir.
   rewrite (slashed_link_abs_cleaned s p (proj1 Hd)).
-  rewrite (resolve_direct _ p false Hd Hlen (or_introl eq_refl)).
+  rewrite (resolve_direct _ p false Hd (or_introl eq_refl)).
   destruct (st_fs s !! comps p) as [[m|m d|m t]|]; try reflexivity.
   destruct (comps p); reflexivity.
 Qed.
 
 Lemma fs_remove_direct : forall s p,
-  direct (st_fs s) p -> length (comps p) + 2 < walk_fuel ->
+  direct (st_fs s) p ->
   fs_remove s p =
     match st_fs s !! comps p with
     | Some (Dir _) =>
@@ -1248,52 +1271,52 @@ Lemma fs_remove_direct : forall s p,
     | None => (Err ENOENT, s)
     end.
 Proof.
-  intros s p Hd Hlen. unfold fs_remove.
-  rewrite (fs_unlink_direct s p Hd Hlen), (fs_rmdir_direct s p Hd Hlen).
+  intros s p Hd. unfold fs_remove.
+  rewrite (fs_unlink_direct s p Hd), (fs_rmdir_direct s p Hd).
   destruct (st_fs s !! comps p) as [[m|m d|m t]|]; try reflexivity.
   destruct (comps p) as [|c r]; [reflexivity|].
   destruct (has_children (st_fs s) (c :: r)); reflexivity.
 Qed.
 
 Lemma fs_remove_direct_nondir : forall s p n,
-  direct (st_fs s) p -> length (comps p) + 2 < walk_fuel ->
+  direct (st_fs s) p ->
   st_fs s !! comps p = Some n -> is_dir n = false ->
   fs_remove s p = (Ok tt, remove_entry s (comps p)).
 Proof.
-  intros s p n Hd Hlen Hn Hnd. rewrite (fs_remove_direct s p Hd Hlen). rewrite Hn.
+  intros s p n Hd Hn Hnd. rewrite (fs_remove_direct s p Hd). rewrite Hn.
   destruct n; [discriminate Hnd | reflexivity | reflexivity].
 Qed.
 
 Lemma fs_remove_direct_emptydir : forall s p m,
-  direct (st_fs s) p -> length (comps p) + 2 < walk_fuel ->
+  direct (st_fs s) p ->
   st_fs s !! comps p = Some (Dir m) -> comps p <> [] ->
   has_children (st_fs s) (comps p) = false ->
   fs_remove s p = (Ok tt, remove_entry s (comps p)).
 Proof.
-  intros s p m Hd Hlen Hn Hne Hc. rewrite (fs_remove_direct s p Hd Hlen). rewrite Hn.
+  intros s p m Hd Hn Hne Hc. rewrite (fs_remove_direct s p Hd). rewrite Hn.
   rewrite Hc. destruct (comps p); [contradiction Hne; reflexivity | reflexivity].
 Qed.
 
 Lemma fs_remove_direct_nonempty : forall s p m,
-  direct (st_fs s) p -> length (comps p) + 2 < walk_fuel ->
+  direct (st_fs s) p ->
   st_fs s !! comps p = Some (Dir m) -> comps p <> [] ->
   has_children (st_fs s) (comps p) = true ->
   fs_remove s p = (Err ENOTEMPTY, s).
 Proof.
-  intros s p m Hd Hlen Hn Hne Hc. rewrite (fs_remove_direct s p Hd Hlen). rewrite Hn.
+  intros s p m Hd Hn Hne Hc. rewrite (fs_remove_direct s p Hd). rewrite Hn.
   rewrite Hc. destruct (comps p); [contradiction Hne; reflexivity | reflexivity].
 Qed.
 
 Lemma fs_remove_direct_missing : forall s p,
-  direct (st_fs s) p -> length (comps p) + 2 < walk_fuel ->
+  direct (st_fs s) p ->
   st_fs s !! comps p = None ->
   fs_remove s p = (Err ENOENT, s).
 Proof.
-  intros s p Hd Hlen Hn. rewrite (fs_remove_direct s p Hd Hlen). rewrite Hn. reflexivity.
+  intros s p Hd Hn. rewrite (fs_remove_direct s p Hd). rewrite Hn. reflexivity.
 Qed.
 
 Lemma fs_removeall_direct : forall s p,
-  direct (st_fs s) p -> length (comps p) + 2 < walk_fuel ->
+  direct (st_fs s) p ->
   fs_removeall s p =
     match st_fs s !! comps p with
     | Some _ =>
@@ -1308,10 +1331,10 @@ Lemma fs_removeall_direct : forall s p,
     | None => (Ok tt, s)
     end.
 Proof.
-  intros s p Hd Hlen. unfold fs_removeall.
+  intros s p Hd. unfold fs_removeall.
   pose proof (abs_cleaned_nonempty p (proj1 Hd)) as Hne.
   destruct p as [|x p']; [contradiction Hne; reflexivity|].
-  rewrite (resolve_direct _ _ false Hd Hlen (or_introl eq_refl)).
+  rewrite (resolve_direct _ _ false Hd (or_introl eq_refl)).
   destruct (st_fs s !! comps (x :: p')); [|destruct (comps (x :: p')); reflexivity].
   destruct (comps (x :: p')); reflexivity.
 Qed.
@@ -1330,7 +1353,7 @@ Proof.
 Qed.
 
 Lemma fs_open_direct : forall s p fl perm,
-  direct (st_fs s) p -> length (comps p) + 2 < walk_fuel ->
+  direct (st_fs s) p ->
   (o_creat fl && o_excl fl = true \/ not_link_at (st_fs s) (comps p)) ->
   fs_open s p fl perm =
     match st_fs s !! comps p with
@@ -1365,11 +1388,11 @@ Lemma fs_open_direct : forall s p fl perm,
         end
     end.
 Proof.
-  intros s p fl perm Hd Hlen Hside. unfold fs_open. cbv zeta.
+  intros s p fl perm Hd Hside. unfold fs_open. cbv zeta.
   rewrite (open_slash_guard p (o_creat fl) (proj1 Hd)).
   assert (Hside' : negb (o_creat fl && o_excl fl) = false \/ not_link_at (st_fs s) (comps p)).
   { destruct Hside as [H|H]; [left; rewrite H; reflexivity | right; exact H]. }
-  rewrite (resolve_direct _ p _ Hd Hlen Hside').
+  rewrite (resolve_direct _ p _ Hd Hside').
   destruct (st_fs s !! comps p) as [n|].
   - destruct (o_creat fl && o_excl fl); [reflexivity|].
     destruct n as [m|m c|m t]; reflexivity.
@@ -1380,74 +1403,74 @@ Qed.
 
 (** [os.Create] / O_RDWR|O_CREATE|O_TRUNC *)
 Lemma fs_open_direct_create_missing : forall s p perm,
-  direct (st_fs s) p -> length (comps p) + 2 < walk_fuel ->
+  direct (st_fs s) p ->
   comps p <> [] -> st_fs s !! comps p = None ->
   fs_open s p 578%N perm =
     (Ok (mkHandle (comps p) 0%N true true false false p),
      add_entry s (removelast (comps p)) (last (comps p) [])
        (fun t g => File (mkMeta (N.land perm 4095%N) 0%N g t) [])).
 Proof.
-  intros s p perm Hd Hlen Hne Hn.
-  rewrite (fs_open_direct s p 578%N perm Hd Hlen).
+  intros s p perm Hd Hne Hn.
+  rewrite (fs_open_direct s p 578%N perm Hd).
   - rewrite Hn. destruct (comps p); [contradiction Hne; reflexivity | reflexivity].
   - right. intros m t E. norm_keys. rewrite Hn in E. discriminate E.
 Qed.
 
 Lemma fs_open_direct_create_file : forall s p perm m c,
-  direct (st_fs s) p -> length (comps p) + 2 < walk_fuel ->
+  direct (st_fs s) p ->
   st_fs s !! comps p = Some (File m c) ->
   fs_open s p 578%N perm =
     (Ok (mkHandle (comps p) 0%N true true false false p),
      update_node (mkFstate (st_fs s) (N.succ (st_clock s))) (comps p)
        (File (mkMeta (m_perm m) (m_uid m) (m_gid m) (Now (st_clock s))) [])).
 Proof.
-  intros s p perm m c Hd Hlen Hn.
-  rewrite (fs_open_direct s p 578%N perm Hd Hlen).
+  intros s p perm m c Hd Hn.
+  rewrite (fs_open_direct s p 578%N perm Hd).
   - rewrite Hn. reflexivity.
   - right. intros m' t E. norm_keys. rewrite Hn in E. discriminate E.
 Qed.
 
 Lemma fs_open_direct_create_dir : forall s p perm m,
-  direct (st_fs s) p -> length (comps p) + 2 < walk_fuel ->
+  direct (st_fs s) p ->
   st_fs s !! comps p = Some (Dir m) ->
   fs_open s p 578%N perm = (Err EISDIR, s).
 Proof.
-  intros s p perm m Hd Hlen Hn.
-  rewrite (fs_open_direct s p 578%N perm Hd Hlen).
+  intros s p perm m Hd Hn.
+  rewrite (fs_open_direct s p 578%N perm Hd).
   - rewrite Hn. reflexivity.
   - right. intros m' t E. norm_keys. rewrite Hn in E. discriminate E.
 Qed.
 
 (** [os.Open] / O_RDONLY *)
 Lemma fs_open_direct_rdonly_file : forall s p perm m c,
-  direct (st_fs s) p -> length (comps p) + 2 < walk_fuel ->
+  direct (st_fs s) p ->
   st_fs s !! comps p = Some (File m c) ->
   fs_open s p 0%N perm = (Ok (mkHandle (comps p) 0%N false true false false p), s).
 Proof.
-  intros s p perm m c Hd Hlen Hn.
-  rewrite (fs_open_direct s p 0%N perm Hd Hlen).
+  intros s p perm m c Hd Hn.
+  rewrite (fs_open_direct s p 0%N perm Hd).
   - rewrite Hn. reflexivity.
   - right. intros m' t E. norm_keys. rewrite Hn in E. discriminate E.
 Qed.
 
 Lemma fs_open_direct_rdonly_dir : forall s p perm m,
-  direct (st_fs s) p -> length (comps p) + 2 < walk_fuel ->
+  direct (st_fs s) p ->
   st_fs s !! comps p = Some (Dir m) ->
   fs_open s p 0%N perm = (Ok (mkHandle (comps p) 0%N false true false true p), s).
 Proof.
-  intros s p perm m Hd Hlen Hn.
-  rewrite (fs_open_direct s p 0%N perm Hd Hlen).
+  intros s p perm m Hd Hn.
+  rewrite (fs_open_direct s p 0%N perm Hd).
   - rewrite Hn. reflexivity.
   - right. intros m' t E. norm_keys. rewrite Hn in E. discriminate E.
 Qed.
 
 Lemma fs_open_direct_rdonly_missing : forall s p perm,
-  direct (st_fs s) p -> length (comps p) + 2 < walk_fuel ->
+  direct (st_fs s) p ->
   st_fs s !! comps p = None ->
   fs_open s p 0%N perm = (Err ENOENT, s).
 Proof.
-  intros s p perm Hd Hlen Hn.
-  rewrite (fs_open_direct s p 0%N perm Hd Hlen).
+  intros s p perm Hd Hn.
+  rewrite (fs_open_direct s p 0%N perm Hd).
   - rewrite Hn. destruct (comps p); reflexivity.
   - right. intros m' t E. norm_keys. rewrite Hn in E. discriminate E.
 Qed.
@@ -1569,11 +1592,11 @@ Proof. reflexivity. Qed.
 
 (** [Stat] of the parent string of a direct path *)
 Lemma fs_stat_parent_string : forall s p,
-  direct (st_fs s) p -> length (comps p) + 2 < walk_fuel -> comps p <> [] ->
+  direct (st_fs s) p -> comps p <> [] ->
   exists m,
     fs_stat s (upto_last_sep p) = Ok (info_of (base (upto_last_sep p)) (Dir m)).
 Proof.
-  intros s p Hd Hlen Hne.
+  intros s p Hd Hne.
   pose proof (direct_parent_dir _ p Hd Hne) as [m Hm]. exists m.
   rewrite (upto_last_sep_abs_cleaned p (proj1 Hd) Hne).
   set (init := removelast (comps p)) in *.
@@ -1585,8 +1608,6 @@ Proof.
   assert (Hdi : dirs_below (st_fs s) [] init).
   { destruct Hd as [_ Hd]. rewrite Hk in Hd. rewrite kprefixes_snoc in Hd.
     apply Forall_app in Hd. exact (proj1 Hd). }
-  assert (Hli : length init + 3 < walk_fuel).
-  { rewrite Hk in Hlen. rewrite app_length in Hlen. simpl in Hlen. lia. }
   unfold fs_stat, resolve.
   assert (Es : split_sep (sep :: join_sep (init ++ [[]])) = [] :: init ++ [[]]).
   { change (split_sep (sep :: join_sep (init ++ [[]])))
@@ -1597,8 +1618,12 @@ Proof.
       + pose proof (comps_good p) as Hg. rewrite Hk in Hg.
         apply Forall_app in Hg. apply Forall_good_nosep. exact (proj1 Hg).
       + constructor; [apply nosep_nil | constructor]. }
+  assert (Hli : length init + 3 < walk_fuel + length (sep :: join_sep (init ++ [[]]))).
+  { pose proof (split_sep_length_le (sep :: join_sep (init ++ [[]]))) as Hsl.
+    rewrite Es in Hsl. simpl length in Hsl. rewrite app_length in Hsl. simpl in Hsl.
+    rewrite walk_fuel_eq. simpl length. lia. }
   rewrite Es. clear Es.
-  revert Hli. generalize walk_fuel. intros F Hli.
+  revert Hli. generalize (walk_fuel + length (sep :: join_sep (init ++ [[]]))). intros F Hli.
   destruct F as [|F]; [lia|].
   rewrite walk_trivial by reflexivity.
   rewrite (walk_dirs_slash (st_fs s) true init F 0 [] m Hpl Hdi Hm) by lia.
@@ -1606,23 +1631,23 @@ Proof.
 Qed.
 
 Lemma fs_mkdirall_direct_dir : forall s p perm m,
-  direct (st_fs s) p -> length (comps p) + 2 < walk_fuel ->
+  direct (st_fs s) p ->
   st_fs s !! comps p = Some (Dir m) ->
   fs_mkdirall s p perm = (Ok tt, s).
 Proof.
-  intros s p perm m Hd Hlen Hn. unfold fs_mkdirall. rewrite fs_mkdirall_aux_S.
-  rewrite (fs_stat_direct s p Hd Hlen).
+  intros s p perm m Hd Hn. unfold fs_mkdirall. rewrite fs_mkdirall_aux_S.
+  rewrite (fs_stat_direct s p Hd).
   - rewrite Hn. reflexivity.
   - intros m' t E. norm_keys. rewrite Hn in E. discriminate E.
 Qed.
 
 Lemma fs_mkdirall_direct_file : forall s p perm m c,
-  direct (st_fs s) p -> length (comps p) + 2 < walk_fuel ->
+  direct (st_fs s) p ->
   st_fs s !! comps p = Some (File m c) ->
   fs_mkdirall s p perm = (Err ENOTDIR, s).
 Proof.
-  intros s p perm m c Hd Hlen Hn. unfold fs_mkdirall. rewrite fs_mkdirall_aux_S.
-  rewrite (fs_stat_direct s p Hd Hlen).
+  intros s p perm m c Hd Hn. unfold fs_mkdirall. rewrite fs_mkdirall_aux_S.
+  rewrite (fs_stat_direct s p Hd).
   - rewrite Hn. reflexivity.
   - intros m' t E. norm_keys. rewrite Hn in E. discriminate E.
 Qed.
@@ -1664,12 +1689,12 @@ Qed.
 
 (** all ancestors exist: [MkdirAll] is [Mkdir] *)
 Lemma fs_mkdirall_direct_missing : forall s p perm,
-  direct (st_fs s) p -> length (comps p) + 2 < walk_fuel ->
+  direct (st_fs s) p ->
   comps p <> [] -> st_fs s !! comps p = None ->
   fs_mkdirall s p perm = fs_mkdir s p perm.
 Proof.
-  intros s p perm Hd Hlen Hne Hn. unfold fs_mkdirall. rewrite fs_mkdirall_aux_S.
-  rewrite (fs_stat_direct s p Hd Hlen);
+  intros s p perm Hd Hne Hn. unfold fs_mkdirall. rewrite fs_mkdirall_aux_S.
+  rewrite (fs_stat_direct s p Hd);
     [| intros m' t E; norm_keys; rewrite Hn in E; discriminate E].
   rewrite Hn.
   rewrite (strip_trailing_seps_abs_cleaned p (proj1 Hd) Hne).
@@ -1681,22 +1706,18 @@ Proof.
   destruct p as [|y p']; [contradiction Hpne; reflexivity|].
   change (length (y :: p')) with (S (length p')).
   destruct (removelast (comps (y :: p'))) as [|x init] eqn:Ei.
-  - rewrite (fs_mkdir_direct_missing s (y :: p') perm Hd Hlen Hne Hn). reflexivity.
+  - rewrite (fs_mkdir_direct_missing s (y :: p') perm Hd Hne Hn). reflexivity.
   - pose proof (abs_cleaned_nonempty _ (proj1 Hdp)) as Hkne.
     destruct (kpath (x :: init)) as [|z q] eqn:Ek; [contradiction Hkne; reflexivity|].
     rewrite fs_mkdirall_aux_S.
-    assert (Hlenp : length (comps (z :: q)) + 2 < walk_fuel).
-    { rewrite Ecp. pose proof (f_equal (@length str) (app_removelast_last [] Hne)) as El.
-      rewrite app_length in El. pose proof (f_equal (@length _) Ei) as El2.
-      unfold str in *. simpl in El, El2. simpl. lia. }
-    rewrite (fs_stat_direct s (z :: q) Hdp Hlenp);
+    rewrite (fs_stat_direct s (z :: q) Hdp);
       [| intros m' t E; norm_keys; rewrite Ecp in E; rewrite Hm in E; discriminate E].
     norm_keys. rewrite Ecp. rewrite Hm. cbv iota beta. simpl fi_kind. cbv iota.
-    rewrite (fs_mkdir_direct_missing s (y :: p') perm Hd Hlen Hne Hn). reflexivity.
+    rewrite (fs_mkdir_direct_missing s (y :: p') perm Hd Hne Hn). reflexivity.
 Qed.
 
 Lemma fs_mkdirall_direct_missing_eq : forall s p perm,
-  direct (st_fs s) p -> length (comps p) + 2 < walk_fuel ->
+  direct (st_fs s) p ->
   comps p <> [] -> st_fs s !! comps p = None ->
   fs_mkdirall s p perm =
     (Ok tt,
@@ -1706,7 +1727,7 @@ Lemma fs_mkdirall_direct_missing_eq : forall s p perm,
                          (if parent_sgid (st_fs s) (removelast (comps p))
                           then sgid_bit else 0%N)) 0%N g t))).
 Proof.
-  intros s p perm Hd Hlen Hne Hn.
-  rewrite (fs_mkdirall_direct_missing s p perm Hd Hlen Hne Hn).
+  intros s p perm Hd Hne Hn.
+  rewrite (fs_mkdirall_direct_missing s p perm Hd Hne Hn).
   apply fs_mkdir_direct_missing; assumption.
 Qed.
